@@ -76,12 +76,12 @@ func unaliasDeep(t types.Type) types.Type {
 
 // Sorts collects on-demand sort declarations.
 type Sorts struct {
-	decl    []string          // emitted declarations in order
-	structs map[string]string // typeKey -> sort name
-	seen    map[string]bool
-	boxes   map[string]bool
-	typeIDs map[string]int
-	typeOf  map[int]types.Type
+	decl     []string          // emitted declarations in order
+	structs  map[string]string // typeKey -> sort name
+	seen     map[string]bool
+	boxes    map[string]bool
+	typeIDs  map[string]int
+	typeOf   map[int]types.Type
 	fieldIDs map[string]int
 }
 
